@@ -25,8 +25,11 @@ EXPLANATION = (
     "itself is third-party and not analysed) for generated gene models x flavour x update_translations: record types per "
     "flavour (gene; mRNA+CDS or CDS; typed RNA; misc_feature + feat_interval), locations with exactly the source blocks "
     "and strand, identifiers in qualifiers, translations equal to the reference translation under the flavour's table. "
-    "R1/R3/R4: structural agreement between writer and parser tables, qualifier keys and pipelines. Not decided: "
-    "Biopython's file syntax and reader; agreement of the three parser modes on content."
+    "R1/R3/R4: structural agreement between writer and parser tables, qualifier keys and pipelines. RP: re-parse leg - the records the writer produced (normalised to what Biopython "
+    "hands back after a file round trip: string-valued qualifier lists, location parts) are given to the library's own "
+    "Sorted / LocusTag / Hybrid parser classes, interpreted up to GeneFeature.to_gene_model (the marshmallow Schema().load is "
+    "modelled): recovered structure, strand, identifiers, frames; the three modes agree. Not decided: Biopython's file "
+    "syntax and reader (the file leg is modelled as identity on type / location / qualifiers)."
 )
 
 W = "io.genbank.writer"
@@ -76,6 +79,22 @@ TX_TYPE = {"protein_coding": "mRNA", "tRNA": "tRNA", None: None}
 GENOME2 = GENOME.translate(str.maketrans("ACGT", "CATG"))  # same length, different bases everywhere
 
 
+def build_gene_obj(it, S, m, par):
+    F, B = it.enum("CDSFrame"), it.enum("Biotype")
+    nm = {0: "ZERO", 1: "ONE", 2: "TWO"}
+    txs = []
+    for i, t in enumerate(m["txs"]):
+        kw = dict(transcript_id=f"{m['id']}.t{i}", transcript_symbol=f"{m['id']}.sym{i}", protein_id=f"{m['id']}.p{i}" if t["cds"] else None,
+                  transcript_type=B[t["type"]] if t["type"] else None, sequence_name="chr1", parent_or_seq_chunk_parent=par)
+        if t["cds"]:
+            fr = consistent_frames(t["cds"], m["strand"], t["f0"])
+            txs.append(mk_transcript(it, t["exons"], S[m["strand"]], t["cds"], [F[nm[x]] for x in fr], **kw))
+        else:
+            txs.append(mk_transcript(it, t["exons"], S[m["strand"]], **kw))
+    return mk_gene(it, txs, gene_id=m["id"], gene_symbol=m["id"] + "_symbol", locus_tag=m["id"] + "_lt", sequence_name="chr1",
+                   parent_or_seq_chunk_parent=par)
+
+
 def _case(repo, it, S, spec):
     if len(spec) == 4:
         # the same models exported twice in one process, the second time on another sequence: the second file must show
@@ -91,20 +110,8 @@ def _case_on(repo, it, S, spec, genome):
     mi, flavor, upd = spec
     out = []
     m = MODELS[mi]
-    F, B = it.enum("CDSFrame"), it.enum("Biotype")
-    nm = {0: "ZERO", 1: "ONE", 2: "TWO"}
     par = chrom_parent(it, genome, alphabet="NT_EXTENDED")
-    txs = []
-    for i, t in enumerate(m["txs"]):
-        kw = dict(transcript_id=f"{m['id']}.t{i}", transcript_symbol=f"{m['id']}.sym{i}", protein_id=f"{m['id']}.p{i}" if t["cds"] else None,
-                  transcript_type=B[t["type"]] if t["type"] else None, sequence_name="chr1", parent_or_seq_chunk_parent=par)
-        if t["cds"]:
-            fr = consistent_frames(t["cds"], m["strand"], t["f0"])
-            txs.append(mk_transcript(it, t["exons"], S[m["strand"]], t["cds"], [F[nm[x]] for x in fr], **kw))
-        else:
-            txs.append(mk_transcript(it, t["exons"], S[m["strand"]], **kw))
-    g = mk_gene(it, txs, gene_id=m["id"], gene_symbol=m["id"] + "_symbol", locus_tag=m["id"] + "_lt", sequence_name="chr1",
-                parent_or_seq_chunk_parent=par)
+    g = build_gene_obj(it, S, m, par)
     f = repo.fn(f"{W}:gene_to_feature")
     desc = f"gene {m['id']} flavor={flavor} update_translations={upd}"
     table = "PROKARYOTE" if flavor == "PROKARYOTIC" else "DEFAULT"
@@ -165,6 +172,203 @@ def _case_on(repo, it, S, spec, genome):
         elif ty != "gene" and ("translation" in q or "protein_id" in q):
             out.append((f"{ty} qualifiers", f"{desc}: transcript-level record carries protein_id / translation", qn))
     return len(recs), out
+
+
+# ---------------------------------------------------------------------------------------------------------
+# RP: re-parse leg - the library's own GenBank parser classes interpreted on the records the writer produced
+# ---------------------------------------------------------------------------------------------------------
+
+def _as_read_back(it, rec):
+    """a feature record as Biopython hands it back after a file round trip (the API the parser was written against):
+    qualifier values are lists of strings; locations expose parts / nofuzzy_start / nofuzzy_end; strand from the location"""
+    def loc_of(loc):
+        if loc.cls_name == "BioFeatureLocation":
+            o = Obj("BioFeatureLocation", start=loc.fields["start"], end=loc.fields["end"], strand=loc.fields["strand"],
+                    nofuzzy_start=loc.fields["start"], nofuzzy_end=loc.fields["end"])
+            o.fields["parts"] = [o]
+            return o
+        parts = [loc_of(p_) for p_ in loc.fields["parts"]]
+        strands_ = {p_.fields["strand"] for p_ in parts}
+        lo, hi = min(p_.fields["start"] for p_ in parts), max(p_.fields["end"] for p_ in parts)
+        return Obj("BioCompoundLocation", parts=parts, strand=next(iter(strands_)) if len(strands_) == 1 else None, start=lo, end=hi,
+                   nofuzzy_start=lo, nofuzzy_end=hi)
+    loc = loc_of(rec.fields["location"])
+    quals = {}
+    for k, v in rec.fields["qualifiers"].items():
+        vals = list(it.iterate(v)) if not isinstance(v, (str, int)) else [v]
+        quals[str(k)] = [str(x.value) if hasattr(x, "value") and not isinstance(x, (str, int)) else str(x) for x in vals]
+    return Obj("BioSeqFeature", location=loc, type=rec.fields["type"], strand=loc.fields["strand"], qualifiers=quals, id="<unknown id>")
+
+
+class _SchemaModel:
+    """stand-in for the marshmallow-dataclass Schema of an io.models class: load() = field check + typed construction"""
+    _interp_native_ = True
+
+    def __init__(self, it, repo, mname):
+        self.it, self.repo, self.mname = it, repo, mname
+
+    def load(self, d):
+        from .c08 import schema_load
+        try:
+            return schema_load(self.it, self.repo, self.mname, d)
+        except ValueError as ex:
+            raise Raised("ValidationError", str(ex))
+
+
+def _reparse_case(repo, it, S, spec):
+    idxs, flavor = spec
+    from .c08 import plain
+    out = []
+    n = 0
+    par = chrom_parent(it, GENOME, alphabet="NT_EXTENDED")
+    ms = sorted((MODELS[i] for i in idxs), key=lambda m: min(t["exons"][0][0] for t in m["txs"]))
+    table = "PROKARYOTE" if flavor == "PROKARYOTIC" else "DEFAULT"
+    f = repo.fn(f"{W}:gene_to_feature")
+    feats = []
+    for m in ms:
+        g = build_gene_obj(it, S, m, par)
+        k, v = run(it, f, [g, it.enum("GenbankFlavor")[flavor], True, it.enum("TranslationTable")[table], False], {}, None)
+        if k != "ok":
+            return 1, [("export", f"gene {m['id']} flavor={flavor}: gene_to_feature raises {v}", f.qual)]
+        feats += [_as_read_back(it, r_) for r_ in it.iterate(v)]
+    answers = {}
+    P = "io.genbank.parser"
+    for pname in ("SortedGenBankParser", "LocusTagGenBankParser", "HybridGenBankParser"):
+        record = Obj("BioSeqRecord", id="chr1", name="chr1", features=[_copy_feature(x) for x in feats], seq=GENOME)
+        desc = f"genes {[m['id'] for m in ms]} flavor={flavor} parser={pname}"
+        captured = {}
+
+        def stop_export(interp, selfv, args, kwargs, captured=captured):
+            captured["parser"] = selfv
+            from ..interp import _Gen
+            return _Gen([])
+        it.hooks[f"{P}:BaseGenBankParser._export_annotation_collections"] = stop_export
+        for mname in ("GeneIntervalModel", "FeatureIntervalCollectionModel", "AnnotationCollectionModel"):
+            it.hooks[f"{mname}.Schema"] = (lambda interp, selfv, args, kwargs, mname=mname: _SchemaModel(it, repo, mname))
+        n += 1
+        try:
+            to_model = ("bound", repo.fn(f"{P}:GeneFeature.to_gene_model"), None)
+            to_fmodel = ("bound", repo.fn(f"{P}:FeatureIntervalGenBankCollection.to_feature_model"), None)
+            parser = it.apply(ClassTok(pname), [[record], None, to_model, to_fmodel], {}, None, 0)
+            k, v = run(it, repo.fn(f"{P}:{pname}.parse"), [], {}, parser)
+            if k == "ok":
+                it.iterate(v)
+        except Raised as ex:
+            k, v = "raise", ex.exc_name
+        if k != "ok":
+            out.append((f"re-parse ({pname})", f"{desc}: parsing the written records raises {v}", f"{P}:{pname}.parse"))
+            continue
+        genes = sorted(parser.fields["genes"][0], key=lambda gfeat: gfeat.fields["_seq_feature"].fields["location"].fields["nofuzzy_start"])
+        dicts = []
+        for gfeat in genes:
+            k, d = run(it, repo.fn(f"{P}:GeneFeature.to_gene_model"), [gfeat], {}, None)
+            if k != "ok":
+                out.append((f"gene model ({pname})", f"{desc}: to_gene_model raises {d}", f"{P}:GeneFeature.to_gene_model"))
+                dicts = None
+                break
+            dicts.append(plain(d))
+        if dicts is None:
+            continue
+        answers[pname] = dicts
+        if len(dicts) != len(ms):
+            out.append((f"number of genes ({pname})", f"{desc}: {len(dicts)} genes recovered; {len(ms)} were written", f"{P}:{pname}.parse"))
+            continue
+        for m, d in zip(ms, dicts):
+            gd = f"{desc} gene {m['id']}"
+            q = f"{P}:GeneFeature.to_gene_model"
+            for key, want in (("gene_symbol", m["id"] + "_symbol"), ("locus_tag", m["id"] + "_lt"), ("gene_id", m["id"])):
+                if d.get(key) != want:
+                    out.append((f"recovered {key}", f"{gd}: {key} = {d.get(key)!r}; written {want!r}", q))
+            txs = d.get("transcripts") or []
+            coding_tx = [t for t in m["txs"] if t["cds"]]
+            # prokaryotic flavour writes no mRNA record for coding transcripts: the CDS structure stands for the transcript
+            want_tx = []
+            for t in m["txs"]:
+                ty = TX_TYPE.get(t["type"]) or ("mRNA" if t["cds"] else "misc_RNA")
+                if ty == "mRNA" and flavor == "PROKARYOTIC":
+                    want_tx.append((sorted(t["cds"]), sorted(t["cds"]), t))
+                else:
+                    want_tx.append((sorted(t["exons"]), sorted(t["cds"]) if t["cds"] else None, t))
+            if len(txs) != len(want_tx):
+                out.append(("recovered transcripts", f"{gd}: {len(txs)} transcripts recovered; {len(want_tx)} written", q))
+                continue
+            for td, (wex, wcds, t) in zip(txs, want_tx):
+                # blocks separated by a 0-bp gap are one block after the file round trip (the parser intersects the CDS with the
+                # transcript span, which normalises adjacent blocks): structures are compared after merging adjacent blocks
+                gex = _merge_adjacent(zip(td.get("exon_starts") or [], td.get("exon_ends") or []))
+                gcds = _merge_adjacent(zip(td.get("cds_starts") or [], td.get("cds_ends") or [])) if td.get("cds_starts") else None
+                wex, wcds = _merge_adjacent(wex), (_merge_adjacent(wcds) if wcds else None)
+                if gex != wex:
+                    out.append(("recovered exon structure", f"{gd}: exons {gex}; written {wex}", q))
+                if gcds != wcds:
+                    out.append(("recovered CDS structure", f"{gd}: CDS {gcds}; written {wcds}", q))
+                if td.get("strand") != m["strand"]:
+                    out.append(("recovered strand", f"{gd}: strand {td.get('strand')}; written {m['strand']}", q))
+                i = m["txs"].index(t)
+                if td.get("transcript_id") != f"{m['id']}.t{i}":
+                    out.append(("recovered transcript_id", f"{gd}: transcript_id {td.get('transcript_id')!r}; written {m['id']}.t{i}", q))
+                if t["cds"] and td.get("protein_id") != f"{m['id']}.p{i}":
+                    out.append(("recovered protein_id", f"{gd}: protein_id {td.get('protein_id')!r}; written {m['id']}.p{i}", q))
+                if t["cds"] and t["f0"] == 0 and len(td.get("cds_frames") or []) == len(t["cds"]):
+                    wfr = [["ZERO", "ONE", "TWO"][x] for x in consistent_frames(t["cds"], m["strand"], 0)]
+                    if list(td.get("cds_frames") or []) != wfr:
+                        out.append(("recovered frames", f"{gd}: frames {td.get('cds_frames')}; written {wfr}", q))
+                # (start frames other than 0 are lost because /codon_start is never written: known finding under C12.RK)
+    it.hooks.pop(f"{P}:BaseGenBankParser._export_annotation_collections", None)
+    if len(answers) == 3:
+        n += 1
+        ref = answers["SortedGenBankParser"]
+        for pname in ("LocusTagGenBankParser", "HybridGenBankParser"):
+            if answers[pname] != ref:
+                from .c08 import _diff
+                out.append(("parser modes agree", f"genes {[m['id'] for m in ms]} flavor={flavor}: {pname} and the sorted parser recover different "
+                            f"gene models from a position-sorted file with unique locus tags: {_diff(ref, answers[pname])}", f"{P}:{pname}.parse"))
+    return n, out
+
+
+def _merge_adjacent(blocks):
+    out = []
+    for s_, e in sorted(blocks):
+        if out and out[-1][1] == s_:
+            out[-1][1] = e
+        else:
+            out.append([s_, e])
+    return [tuple(b) for b in out]
+
+
+def _copy_feature(x):
+    """fresh record objects for each parser run (the parsers retype features in place)"""
+    def cp(o):
+        if isinstance(o, Obj):
+            if o.cls_name == "BioFeatureLocation":
+                n_ = Obj(o.cls_name, **{k: v for k, v in o.fields.items() if k != "parts"})
+                n_.fields["parts"] = [n_]
+                return n_
+            return Obj(o.cls_name, **{k: cp(v) for k, v in o.fields.items()})
+        if isinstance(o, list):
+            return [cp(v) for v in o]
+        if isinstance(o, dict):
+            return {k: cp(v) for k, v in o.items()}
+        return o
+    return cp(x)
+
+
+def rp_reparse(ctx):
+    specs = []
+    # single-isoform genes (a GenBank file cannot pair several mRNA / CDS records of one gene; the parser documents that it keeps
+    # the first transcript), one strand per file as the property states
+    single_strand_sets = [(0, 1, 3), (2, 5), (0, 1, 3, 6), (1,), (5,), (2,), (3, 6)]
+    for idxs in single_strand_sets:
+        for fl in ("PROKARYOTIC", "EUKARYOTIC"):
+            specs.append((idxs, fl))
+    ctx.r.floor("C12.RP", "re-parse cases", len(specs), 10)
+    from ..par import pmap
+    results = pmap(_runner(ctx.repo, _reparse_case), specs, min_items=2)
+    P = "io.genbank.parser"
+    _report(ctx, "C12.RP", results, [(f"{P}:GeneFeature.to_gene_model", "gene models recovered from the written records"),
+                                     (f"{P}:SortedGenBankParser.parse", "position-sorted grouping"),
+                                     (f"{P}:LocusTagGenBankParser.parse", "locus-tag grouping agrees with the sorted parser"),
+                                     (f"{P}:HybridGenBankParser.parse", "hybrid grouping agrees with the sorted parser")])
 
 
 def _fc_case(repo, it, S, spec):
@@ -292,6 +496,7 @@ def r4_pipelines(ctx):
 
 RULES = [
     ("C12.RK", rk_writer),
+    ("C12.RP", rp_reparse),
     ("C12.R1", r1_tables),
     ("C12.R3", r3_qualifier_keys),
     ("C12.R4", r4_pipelines),
